@@ -1135,3 +1135,30 @@ Qed.
 
 Theorem c05_merge_paths_nonempty c : get_merge_paths c <> [].
 Proof. unfold get_merge_paths. apply c05_merge_paths_from_nonempty. discriminate. Qed.
+
+(* two hotfix queues at once (q/4.3.18.1 and q/5.1.3.1) and a development pull request: nothing in WF or
+   in the proofs bounds the number of hotfix queues; here the lower hotfix tip FAILED, the higher is green *)
+Definition c05_hf2_queues : queues :=
+  [ (c05_v [4; 3],        {| q_master := true; q_ints := [c05_e 9 2] |});
+    (c05_v [4; 3; 18; 1], {| q_master := true; q_ints := [c05_e 7 0] |});
+    (c05_v [5; 1],        {| q_master := true; q_ints := [c05_e 9 3] |});
+    (c05_v [5; 1; 3; 1],  {| q_master := true; q_ints := [c05_e 3 1] |}) ].
+Definition c05_hf2_paths : list (list version) :=
+  get_merge_paths [ {| c_dev := Some (c05_v [4; 3]); c_stab := None; c_hf := None |};
+                    {| c_dev := Some (c05_v [5; 1]); c_stab := None; c_hf := None |} ].
+Definition c05_hf2_status (c : Z) : string := if c =? 0 then "FAILED"%string else "SUCCESSFUL"%string.
+
+Example c05_hf2_wf : WF c05_hf2_paths [9] c05_hf2_queues.
+Proof. apply c05_wf_b_sound. vm_compute. reflexivity. Qed.
+
+Example c05_hf2_value :
+  evaluate c05_hf2_status c05_hf2_paths false c05_hf2_queues
+  = Ok ([3; 9], [(c05_v [4; 3], Some (c05_e 9 2)); (c05_v [4; 3; 18; 1], None);
+                 (c05_v [5; 1], Some (c05_e 9 3)); (c05_v [5; 1; 3; 1], Some (c05_e 3 1))])
+  /\ evaluate (fun _ => "SUCCESSFUL"%string) c05_hf2_paths false c05_hf2_queues
+     = Ok ([7; 3; 9], [(c05_v [4; 3], Some (c05_e 9 2)); (c05_v [4; 3; 18; 1], Some (c05_e 7 0));
+                       (c05_v [5; 1], Some (c05_e 9 3)); (c05_v [5; 1; 3; 1], Some (c05_e 3 1))])
+  /\ evaluate (fun _ => "FAILED"%string) c05_hf2_paths true c05_hf2_queues
+     = Ok ([7; 3; 9], [(c05_v [4; 3], Some (c05_e 9 2)); (c05_v [4; 3; 18; 1], Some (c05_e 7 0));
+                       (c05_v [5; 1], Some (c05_e 9 3)); (c05_v [5; 1; 3; 1], Some (c05_e 3 1))]).
+Proof. vm_compute. repeat split; reflexivity. Qed.
